@@ -367,6 +367,25 @@ func (p *Program) linFromFrame(v ssa.Value, depth int) (Lin, bool) {
 			}
 		}
 	}
+	if len(vals) == 0 {
+		// a composite literal that leaves the field out: the zero value — provided the local is only ever written field
+		// by field (no whole-struct store) and never handed on by address
+		zero := true
+		for _, u := range usesOf(al) {
+			switch y := u.(type) {
+			case *ssa.FieldAddr, *ssa.UnOp, *ssa.DebugRef:
+			case *ssa.Store:
+				if y.Addr == ssa.Value(al) {
+					zero = false
+				}
+			default:
+				zero = false
+			}
+		}
+		if zero {
+			return newLin(), true
+		}
+	}
 	if len(vals) != 1 {
 		return Lin{}, false
 	}
